@@ -178,6 +178,40 @@ class CellAveragedPdf(Contract):
     and conditioning cell centre g:  (F(c + dx/2 | g) - F(c - dx/2 | g)) / dx, laid out on the variable's own axis
     (and the conditioning variable's axis), extent 1 elsewhere"""
 
+    def replay(self, case, ob):
+        """native: the real cell_averaged_pdf on an ANISOTROPIC grid against the CDF differences computed directly from
+        the model's own (conditional) distributions"""
+        import numpy as np
+        import types
+        from virocon.contours import HighestDensityContour as H
+        from .jointmodel import native_model
+        co, d = case["co"], case["dist_idx"]
+        m = native_model(co)
+        nd = len(co)
+        coords = [np.arange(0.4 + 0.1 * ax, 3.0, [0.31, 0.07, 0.53, 0.19][ax]) for ax in range(nd)]
+        me = types.SimpleNamespace(model=m)
+        got = np.asarray(H.cell_averaged_pdf(me, d, coords), dtype=float)
+        dx = coords[d][1] - coords[d][0]
+        dist = m.distributions[d]
+        c = co[d]
+        if c is None:
+            want = dist.cdf(coords[d] + 0.5 * dx) - dist.cdf(coords[d] - 0.5 * dx)
+            shape = [1] * nd
+            shape[d] = len(coords[d])
+            want = want.reshape(shape)
+        else:
+            want = np.empty((len(coords[c]), len(coords[d])))
+            for r, g in enumerate(coords[c]):
+                want[r] = dist.cdf(coords[d] + 0.5 * dx, given=g) - dist.cdf(coords[d] - 0.5 * dx, given=g)
+            shape = [1] * nd
+            shape[c], shape[d] = len(coords[c]), len(coords[d])
+            want = (want if c < d else want.T).reshape(shape)
+        want = want / dx   # cell-averaged density = probability of the cell / its own width
+        bad = got.shape != want.shape or not np.allclose(got, want, rtol=1e-9, atol=1e-14)
+        worst = float(np.max(np.abs(got - want))) if got.shape == want.shape else None
+        return {"confirmed": bool(bad), "detail": f"structure {co}, variable {d}, cell sizes {[float(c_[1] - c_[0]) for c_ in coords]}: shape {got.shape} vs {want.shape}, "
+                f"largest deviation from (F(x + dx/2 | g) - F(x - dx/2 | g)) / dx: {worst}"}
+
     def case_label(self, case):
         return f"conditional_on={structure_label(case['co'])},dist_idx={case['dist_idx']}"
 
